@@ -81,8 +81,57 @@ func runMutants(prop, repo, verif string, seed int, r *an.R) any {
 			}
 		}()
 	}
-	fmt.Printf("selftest: %d mutants\n", len(out))
+	// neutral variants: behaviour-preserving rewrites of the constructs the rules look at; the check must stay silent
+	neutrals, _ := filepath.Glob(filepath.Join(verif, "checker", "neutral", prop+"-*.patch"))
+	sort.Strings(neutrals)
+	nNeutral := 0
+	for _, pf := range neutrals {
+		name := filepath.Base(pf)
+		nNeutral++
+		scratch, err := os.MkdirTemp("", "zv-neu-")
+		if err != nil {
+			out = append(out, res{name, "skipped: " + err.Error(), "silent"})
+			continue
+		}
+		func() {
+			defer os.RemoveAll(scratch)
+			src := filepath.Join(scratch, "repo")
+			vdir := filepath.Join(scratch, "verif")
+			os.MkdirAll(filepath.Join(vdir, "evidence"), 0o755)
+			if b, err := exec.Command("rsync", "-a", "--exclude", ".git", repo+"/", src+"/").CombinedOutput(); err != nil {
+				out = append(out, res{name, "skipped: copy failed: " + string(b), "silent"})
+				return
+			}
+			if b, err := os.ReadFile(filepath.Join(verif, "known_findings.json")); err == nil {
+				os.WriteFile(filepath.Join(vdir, "known_findings.json"), b, 0o644)
+			}
+			ap := exec.Command("patch", "-p1", "-s", "-f", "--no-backup-if-mismatch", "-i", pf)
+			ap.Dir = src
+			if b, err := ap.CombinedOutput(); err != nil {
+				out = append(out, res{name, "skipped: patch does not apply: " + firstLine(string(b)), "silent"})
+				return
+			}
+			c := exec.Command(exe, "-property", prop, "-tier", "quick", "-repo", src, "-verif", vdir)
+			b, err := c.CombinedOutput()
+			if err == nil && !strings.Contains(string(b), "VIOLATION property=") {
+				out = append(out, res{name, "silent (as required)", "silent"})
+				return
+			}
+			out = append(out, res{name, "FALSE-ALARM", "silent"})
+			fmt.Printf("SELFTEST-FALSE-ALARM: %s is a behaviour-preserving variant but the check reports: %s\n", name, firstViolation(string(b)))
+		}()
+	}
+	fmt.Printf("selftest: %d mutants, %d neutral variants\n", len(out)-nNeutral, nNeutral)
 	return out
+}
+
+func firstViolation(txt string) string {
+	for _, l := range strings.Split(txt, "\n") {
+		if strings.Contains(l, "VIOLATED") || strings.Contains(l, "UNDECIDED") {
+			return strings.TrimSpace(l)
+		}
+	}
+	return firstLine(txt)
 }
 
 func firstLine(s string) string {
